@@ -251,7 +251,7 @@ fn judge_blackbox(script: &[String], go: &str, t_ms: u64, kind: &str, stats: &mu
                 }
             }
             Wait::Eof => break,
-            Wait::Timeout => {}
+            Wait::Timeout | Wait::Idle => {}
         }
         let used = ticks_ms(pr.cpu_ticks().unwrap_or(c0).saturating_sub(c0));
         if used > t_ms + CPU_ALLOW_MS {
